@@ -97,6 +97,8 @@ def main(src):
         def one(x):
             if isinstance(x, re.Pattern):
                 return {"kind": "re", "pattern": x.pattern, "flags": x.flags}
+            if isinstance(x, types.BuiltinMethodType) and isinstance(getattr(x, "__self__", None), re.Pattern):
+                return {"kind": "re_method", "method": x.__name__, "pattern": x.__self__.pattern, "flags": x.__self__.flags}
             if _pt is not None and isinstance(x, _pt.Pattern):
                 c = x.get_compiled()
                 return {"kind": "Pattern", "pattern": c.pattern, "flags": c.flags, "value": x.value, "label": x.label}
@@ -127,6 +129,8 @@ def main(src):
                 pats = describe_patterns(raw)
                 if pats is not None:
                     v["patterns"] = pats
+                if inspect.isclass(raw) and raw.__module__.startswith("fparser"):
+                    v["class_key"] = key_of(raw)
                 if isinstance(raw, (str, int, bool, type(None))):
                     v["value"] = raw
                 elif isinstance(raw, (list, tuple)) and all(isinstance(x, (str, int, type(None))) for x in raw):
